@@ -529,3 +529,14 @@ package cisco
 //vc:func (*State).equalizedGroups
 //vc:  assign at "ab := &cmdsPair{aCmds: la, bCmds: lb, key: byOrig}" grpWasFree = !ga.needed
 //vc:  assert[C01] at "ga.needed = true" @deviceGroupChangedOnlyWhileFree grpWasFree
+
+// follow (closure 1 of deleteUnused): for an object that Netspoc did not create
+// and does not need, everything it refers to - directly or through further
+// objects - is recorded as still referenced: every command of every referenced
+// object that is not needed is followed, not only the first one of an object
+// or the first visit of a name.
+//vc:ghost var lastFollowed *cmd
+//vc:func (*State).deleteUnused$1
+//vc:  assign after "follow(c2)"#1 lastFollowed = c2
+//vc:  assert[C01,C07] at "stillReferenced[pair{prefix, name}] = true" @referencedObjectProtected !c2.needed
+//vc:  invariant[C01,C07] 2 "for _, c2 := range s.a.lookup[prefix][name]" @everyUnneededCommandFollowed forall k int :: { rangeslice[k] } k == rangeindex && 0 <= k && !rangeslice[k].needed ==> lastFollowed == rangeslice[k]
